@@ -178,7 +178,7 @@ def run(ctx, chk):
             falses = [e for e in pa.events if e.kind == "call" and e.ckind == "lib" and e.callee in CONTAINER_OPS and _falsy(pa.st, e.res)]
             if not nulls and not falses:
                 continue
-            cf = any(e.kind == "store" and ptr_key(e.args[0])[1] == cf_off and e.extra == "i8" and e.args[1] == ("c", 1) for e in pa.events)
+            cf = any(e.kind == "store" and ptr_key(e.args[0])[1] == cf_off and isinstance(ptr_key(e.args[0])[0], tuple) and ptr_key(e.args[0])[0][0] == "arg" and e.extra == "i8" and e.args[1] == ("c", 1) for e in pa.events)
             nb += 1
             chk.ob("C06.channel", "%s path %d: refused allocation raises creation_failed" % (bn, k), cf, "%s:%d" % (bf.file, bf.line),
                    fn=bn, key="%s:cf:%d" % (bn, k), detail="" if cf else "allocation failure is swallowed (no MEMERROR)",
@@ -186,6 +186,18 @@ def run(ctx, chk):
     chk.floor("C06.channel", "allocation-failure paths in builders", nb, 20)
     chk.count("functions", len(prog.lib_funcs()))
     chk.count("paths", sum(len(cache.get(f.name)) for f in prog.lib_funcs()))
+    chk.rule("C06.record-items", "the item a decoding-stack record carries is released (cbor_decref) or handed on (stored into its parent / the "
+             "context) on every path that unlinks the record: otherwise the partially built item and every block attached to it "
+             "never reach the installed free (failure leaves no partial state behind)")
+    check_record_items(chk, "C06.record-items", prog, eff)
+    chk.rule("C06.no-access-after-free", "on every path of every library function (unit-internal helpers and the stack module inlined) no load or "
+             "store addresses a block after it was handed to the installed free, and no block is handed to it twice (failure atomicity does not depend on what freed memory holds)")
+    check_no_access_after_free(chk, "C06.no-access-after-free", prog, eff)
+    chk.rule("C06.null-belief", "a pointer parameter that the function itself compares with NULL (an optional out-parameter) is accessed only "
+             "where the path has established it is not NULL (a refused allocation in cbor_serialize_alloc called without a size out-parameter must return 0, not fault)")
+    import rules as _rnb
+    import ownership as _Onb
+    _rnb.check_null_belief(chk, "C06.null-belief", prog, _Onb.PathCache(prog, eff))
     chk.exhaustive = True
 
 
@@ -352,6 +364,130 @@ def check_stack_records(chk, rule, prog, eff, floor=4):
                        detail="" if ok else "the record popped at %s is not handed to the installed free before %s returns (it is kept somewhere "
                                             "the function's exit never releases)" % (e.ins.loc(), f.name), path=pa.block_lines() if not ok else None)
     chk.floor(rule, "records unlinked on paths", n, floor)
+
+
+def check_record_items(chk, rule, prog, eff, floor=8):
+    """The item a stack record carries is owned by that record: a function that unlinks a record from a decoding stack
+    (cbor_load's drain loop, the builder callbacks that complete a container) has, on the same path, released that item
+    (cbor_decref on the record's item field or on the value read from it) or handed it on (stored it into its parent,
+    the context's root, ...).  A record popped without either takes the partially built item - and everything attached
+    to it - out of reach: nothing ever hands those blocks to the installed free."""
+    stack_unit = prog.fn("_cbor_stack_pop").unit
+    mod = {f.name for f in prog.lib_funcs() if f.unit == stack_unit}
+    top_off = prog.field_offset("_cbor_stack", "top")
+    lower_off = prog.field_offset("_cbor_stack_record", "lower")
+    item_off = prog.field_offset("_cbor_stack_record", "item")
+    n = 0
+    in_context = set()
+    for g in prog.lib_funcs():
+        in_context |= O.static_callees(prog, eff, g.name)
+    for f in prog.lib_funcs():
+        if f.name in mod or f.name in in_context:
+            continue
+        if "_cbor_stack_pop" not in eff.transitive_callees(f.name):
+            continue
+        lb = 2 if f.back_edges() else 1
+        for k, pa in enumerate(P.Executor(prog, eff, inline=mod | O.static_callees(prog, eff, f.name), loop_bound=lb).run(f.name)):
+            cur = {}
+            unlinked = []
+            for e in pa.events:
+                if e.kind == "load":
+                    b, o = ptr_key(e.args[0])
+                    if o == top_off:
+                        cur[b] = e.res
+                elif e.kind == "store":
+                    b, o = ptr_key(e.args[0])
+                    if o == top_off:
+                        old = cur.get(b)
+                        new = e.args[1]
+                        if isinstance(old, tuple) and old[0] in ("ld", "call") and new != old:
+                            relinked = any(x.kind == "store" and x.args[1] == old and ptr_key(x.args[0]) == (ptr_key(new)[0] if isinstance(new, tuple) else None, lower_off)
+                                           for x in pa.events)
+                            # a block allocated on this path that becomes the top is a push, whatever way its `lower` is filled in
+                            pushed = any(x.kind == "call" and x.ckind == "alloc" and x.res == new for x in pa.events)
+                            if not pushed and isinstance(new, tuple):
+                                # ... or any record (a cached spare) whose `lower` link ends up pointing at the old top
+                                lp = P.mkptr(new, lower_off)
+                                pushed = pa.st.is_defined(lp, 8) and pa.st.load(lp, "i8*", None) == old
+                            if not relinked and not pushed:
+                                unlinked.append((old, e))
+                        cur[b] = new
+            for rec, e in unlinked:
+                items = {x.res for x in pa.events if x.kind == "load" and ptr_key(x.args[0]) == (rec, item_off)}
+                ok = False
+                for x in pa.events:
+                    if x.kind == "call" and x.callee in ("cbor_decref", "cbor_intermediate_decref"):
+                        a0 = x.args[0]
+                        if ptr_key(a0) == (rec, item_off) or a0 in items or (x.extra and isinstance(x.extra, dict) and x.extra.get("pointee") and x.extra["pointee"][0] in items):
+                            ok = True
+                    elif x.kind == "store" and x.args[1] in items:
+                        ok = True
+                    elif x.kind == "call" and x.ckind == "lib" and any(a in items for a in x.args):
+                        # handed to a routine that keeps it (stores it somewhere reachable from its arguments) or counts it
+                        S_ = eff.summ.get(x.callee, {})
+                        if x.callee in O.TAKES_REF or any(v_ == ("param", j_) for j_, a in enumerate(x.args) if a in items
+                                                          for _t, v_ in S_.get("stores", ())):
+                            ok = True
+                n += 1
+                chk.ob(rule, "%s path %d: the item of a record unlinked from the decoding stack is released or handed on" % (f.name, k), ok,
+                       e.ins.loc(), fn=f.name, key="%s:recitem:%s:%d" % (f.name, e.fn.name, e.ins.id),
+                       detail="" if ok else "the record is popped but its item is neither passed to cbor_decref nor stored anywhere on this path: "
+                                            "the partially built item and all blocks attached to it are never handed to the installed free",
+                       path=pa.block_lines() if not ok else None)
+    chk.floor(rule, "records unlinked on paths (item ownership)", n, floor)
+
+
+def _addr_root(t):
+    """the pointer an address is computed from: peel constant offsets and indexing"""
+    while isinstance(t, tuple) and t[0] in ("p", "idx"):
+        t = t[1]
+    return t
+
+
+def check_no_access_after_free(chk, rule, prog, eff, floor=20):
+    """A block handed to the installed free is gone: on every path of every library function (unit-internal helpers and
+    the stack module inlined) no later load or store addresses that block, and it is not handed to free a second time.
+    What the block contained must have been read BEFORE the release - its contents afterwards are whatever the
+    allocator likes (glibc happens to keep bytes 16.. of a small block; a poisoning or unmapping allocator does not)."""
+    stack_unit = prog.fn("_cbor_stack_pop").unit
+    mod = {f.name for f in prog.lib_funcs() if f.unit == stack_unit}
+    in_context = set()
+    for g in prog.lib_funcs():
+        in_context |= O.static_callees(prog, eff, g.name)
+    n = 0
+    for f in prog.lib_funcs():
+        if f.name in in_context and f.name not in mod:
+            continue
+        S = eff.summ.get(f.name, {})
+        if not S.get("frees"):
+            continue
+        inl = (mod | O.static_callees(prog, eff, f.name)) - {f.name}
+        worst = {}
+        for k, pa in enumerate(P.Executor(prog, eff, inline=inl, loop_bound=1).run(f.name)):
+            freed = {}
+            for e in pa.events:
+                if e.kind == "call" and e.ckind == "alloc" and e.callee == "_cbor_free":
+                    x = e.args[0]
+                    while isinstance(x, tuple) and x[0] == "cast":
+                        x = x[3]
+                    key = ("free", e.fn.name, e.ins.id)
+                    n_key = key
+                    if x in freed and x != ("c", 0):
+                        worst[n_key] = (False, e, "the block released at %s is handed to free again" % freed[x].ins.loc(), pa)
+                    else:
+                        worst.setdefault(n_key, (True, e, "", pa))
+                    if isinstance(x, tuple) and x[0] in ("ld", "call", "arg"):
+                        freed[x] = e
+                elif e.kind in ("load", "store") and freed:
+                    r = _addr_root(e.args[0])
+                    if r in freed:
+                        fe = freed[r]
+                        worst[("free", fe.fn.name, fe.ins.id)] = (False, fe, "%s at %s addresses the block after it was released" % (e.kind, e.ins.loc()), pa)
+        for key, (ok, e, det, pa) in worst.items():
+            n += 1
+            chk.ob(rule, "%s: nothing addresses a block after its release in %s" % (f.name, e.fn.name), ok, e.ins.loc(), fn=f.name,
+                   key="%s:uaf:%s:%d" % (f.name, key[1], key[2]), detail=det, path=pa.block_lines() if not ok else None)
+    chk.floor(rule, "release sites on paths", n, floor)
 
 
 def check_blocks(chk, rule, prog, cache, floor=None):
